@@ -460,9 +460,8 @@ class IPPO(MultiAgentRLAlgorithm):
             agent_space = self.action_space[agent_id]
             action = action.cpu().data.numpy()
             if not self.training and isinstance(agent_space, spaces.Box):
-                if actor.squash_output:
-                    action = actor.scale_action(action)
-                else:
+                # A squashed policy already scales its actions to the bounds in forward()
+                if not actor.squash_output:
                     action = np.clip(action, agent_space.low, agent_space.high)
 
             action_dict[shared_id] = action
